@@ -404,17 +404,187 @@ func c01ForkFlagFamily(rng *rand.Rand, thorough bool) []c01Case {
 	return out
 }
 
+// ---- family 4: `disabled` split over a LITERAL collection mixing literal flags and run-time flags ----
+
+// elems: 0 literal false, 1 reference that is true at run time, 2 reference that
+// is false at run time, 3 literal true.  form: 0 array literal of structs
+// (`disabled = self.item.skip`), 1 typed-map literal of structs, 2 array literal
+// of flags bound to a bool input (`skip = split [F0.flag, false]`), 3 map literal of flags
+func c01LitFlagProgram(elems []int, form int) string {
+	var sb strings.Builder
+	sb.WriteString(c01FamilyStages)
+	structForm := form <= 1
+	if structForm {
+		sb.WriteString("struct ITEM(\n    int  v,\n    bool skip,\n)\n\n")
+		sb.WriteString("pipeline MP(\n    in  ITEM item,\n    out int  a,\n    out int  b,\n)\n{\n")
+		sb.WriteString("    call WORK as A(\n        x = self.item.v,\n    ) using (\n        disabled = self.item.skip,\n    )\n\n")
+		sb.WriteString("    call WORK as B(\n        x = A.y,\n    )\n\n")
+	} else {
+		sb.WriteString("pipeline MP(\n    in  int  v,\n    in  bool skip,\n    out int  a,\n    out int  b,\n)\n{\n")
+		sb.WriteString("    call WORK as A(\n        x = self.v,\n    ) using (\n        disabled = self.skip,\n    )\n\n")
+		sb.WriteString("    call WORK as B(\n        x = A.y,\n    )\n\n")
+	}
+	sb.WriteString("    return (\n        a = A.y,\n        b = B.y,\n    )\n}\n\n")
+	isMap := form == 1 || form == 3
+	outT := "int[]"
+	if isMap {
+		outT = "map<int>"
+	}
+	fmt.Fprintf(&sb, "pipeline TOP(\n    out %s a,\n    out %s b,\n)\n{\n", outT, outT)
+	flags := make([]string, len(elems))
+	for i, e := range elems {
+		switch e {
+		case 0:
+			flags[i] = "false"
+		case 3:
+			flags[i] = "true"
+		default:
+			fmt.Fprintf(&sb, "    call ECHOFLAG as F%d(\n        want = %v,\n    )\n\n", i, e == 1)
+			flags[i] = fmt.Sprintf("F%d.flag", i)
+		}
+	}
+	items := make([]string, len(elems))
+	vals := make([]string, len(elems))
+	for i := range elems {
+		key := ""
+		if isMap {
+			key = fmt.Sprintf("\"k%d\": ", i)
+		}
+		items[i] = fmt.Sprintf("%s{v: %d, skip: %s}", key, i+1, flags[i])
+		vals[i] = fmt.Sprintf("%s%d", key, i+1)
+		flags[i] = key + flags[i]
+	}
+	open, close := "[", "]"
+	if isMap {
+		open, close = "{", "}"
+	}
+	if structForm {
+		fmt.Fprintf(&sb, "    map call MP(\n        item = split %s%s%s,\n    )\n\n", open, strings.Join(items, ", "), close)
+	} else {
+		fmt.Fprintf(&sb, "    map call MP(\n        v    = split %s%s%s,\n        skip = split %s%s%s,\n    )\n\n", open, strings.Join(vals, ", "), close, open, strings.Join(flags, ", "), close)
+	}
+	sb.WriteString("    return (\n        a = MP.a,\n        b = MP.b,\n    )\n}\n\ncall TOP()\n")
+	return sb.String()
+}
+
+func c01LitFlagFamily(rng *rand.Rand, thorough bool) []c01Case {
+	var out []c01Case
+	add := func(elems []int, form int) {
+		out = append(out, c01Case{
+			name:  fmt.Sprintf("family/lit-flag-%s-f%d", strings.Trim(strings.ReplaceAll(fmt.Sprint(elems), " ", ""), "[]"), form),
+			src:   c01LitFlagProgram(elems, form),
+			stats: map[string]int{"family_lit_flag": 1},
+		})
+	}
+	for form := 0; form <= 3; form++ {
+		// a single run-time-true flag; literal false + run-time true (both orders); references only
+		add([]int{1}, form)
+		add([]int{0, 1}, form)
+		add([]int{1, 0, 2}, form)
+		add([]int{2, 1}, form)
+		extra := 1
+		if thorough {
+			extra = 8
+		}
+		for i := 0; i < extra; i++ {
+			n := 1 + rng.Intn(4)
+			e := make([]int, n)
+			for j := range e {
+				e[j] = rng.Intn(4)
+			}
+			add(e, form)
+		}
+	}
+	return out
+}
+
+// ---- family 5: splitting stages with chunk-level outs only / stage-level outs only ----
+
+func c01ChunkOutsProgram(n int, mapped bool) string {
+	var sb strings.Builder
+	sb.WriteString(`stage CHUNKONLY(
+    in  int  x,
+    src comp "fake",
+) split (
+    in  int    ci,
+    out int    y,
+    out string s,
+)
+
+stage STAGEONLY(
+    in  int  x,
+    out int  z,
+    src comp "fake",
+) split (
+    in  int ci,
+)
+
+stage BOTH(
+    in  int   x,
+    out int   z,
+    src comp  "fake",
+) split (
+    in  int   ci,
+    out int[] ys,
+)
+
+`)
+	zt := "int"
+	if mapped {
+		zt = "int[]"
+	}
+	fmt.Fprintf(&sb, "pipeline TOP(\n    in  int v,\n")
+	for i := 0; i < n; i++ {
+		fmt.Fprintf(&sb, "    out %s z%d,\n    out %s w%d,\n", zt, i, zt, i)
+	}
+	sb.WriteString(")\n{\n")
+	for i := 0; i < n; i++ {
+		bind := fmt.Sprintf("x = %d,", 10*i+1)
+		word := "call"
+		if mapped {
+			bind = fmt.Sprintf("x = split [self.v, %d],", 10*i+1)
+			word = "map call"
+		} else if i == 0 {
+			bind = "x = self.v,"
+		}
+		fmt.Fprintf(&sb, "    %s CHUNKONLY as C%d(\n        %s\n    )\n\n", word, i, bind)
+		fmt.Fprintf(&sb, "    %s STAGEONLY as S%d(\n        %s\n    )\n\n", word, i, bind)
+		fmt.Fprintf(&sb, "    %s BOTH as B%d(\n        %s\n    )\n\n", word, i, bind)
+	}
+	sb.WriteString("    return (\n")
+	for i := 0; i < n; i++ {
+		fmt.Fprintf(&sb, "        z%d = S%d.z,\n        w%d = B%d.z,\n", i, i, i, i)
+	}
+	sb.WriteString("    )\n}\n\ncall TOP(\n    v = 4,\n)\n")
+	return sb.String()
+}
+
+func c01ChunkOutsFamily(rng *rand.Rand, thorough bool) []c01Case {
+	var out []c01Case
+	for _, mapped := range []bool{false, true} {
+		// several calls with different arguments: the fake split chooses 0..3 chunks per call
+		out = append(out, c01Case{
+			name:  fmt.Sprintf("family/chunk-outs-mapped%v", mapped),
+			src:   c01ChunkOutsProgram(4, mapped),
+			stats: map[string]int{"family_chunk_outs": 1},
+		})
+	}
+	return out
+}
+
 // c01Families: all program families of the C01 supply
 func c01Families(rng *rand.Rand, thorough bool) []c01Case {
 	cases := c01DisableFamily(rng, thorough)
 	cases = append(cases, c01NullSplitFamily(rng, thorough)...)
 	cases = append(cases, c01ForkFlagFamily(rng, thorough)...)
+	cases = append(cases, c01LitFlagFamily(rng, thorough)...)
+	cases = append(cases, c01ChunkOutsFamily(rng, thorough)...)
 	return cases
 }
 
 func c01FamilyClass(name string) string {
 	name = strings.TrimPrefix(name, "family/")
-	for _, p := range []string{"disabled-nest", "null-split", "fork-flag"} {
+	for _, p := range []string{"disabled-nest", "null-split", "fork-flag", "lit-flag", "chunk-outs"} {
 		if strings.HasPrefix(name, p) {
 			return p
 		}
